@@ -382,6 +382,8 @@ int vmd_server_run(const VmdServerConfig *cfg) {
                         ? cfg->idle_timeout_sec * 1000
                         : -1;  /* infinite */
 
+    bool retired = false;  /* socket path and pid file already removed */
+
     while (!g_shutdown) {
         struct pollfd pfd = { .fd = server_fd, .events = POLLIN };
         int nready = poll(&pfd, 1, idle_timeout_ms);
@@ -399,6 +401,17 @@ int vmd_server_run(const VmdServerConfig *cfg) {
             pthread_mutex_unlock(&g_client_count_mutex);
 
             if (active == 0) {
+                /* Become unreachable before deciding to go: with the pid file and
+                 * the socket path gone, a new client starts a fresh daemon instead
+                 * of connecting to this one. A client whose connect() succeeded
+                 * before that is waiting in the listen backlog and is still served. */
+                if (!retired) {
+                    remove_pid_file(pid_file);
+                    unlink(sock_path);
+                    retired = true;
+                }
+                struct pollfd last = { .fd = server_fd, .events = POLLIN };
+                if (poll(&last, 1, 0) > 0) continue;
                 if (cfg->verbose) {
                     fprintf(stderr, "[vmd] Idle timeout, shutting down\n");
                 }
@@ -432,10 +445,13 @@ int vmd_server_run(const VmdServerConfig *cfg) {
         pthread_detach(tid);
     }
 
-    /* Cleanup */
+    /* Cleanup (after an idle timeout the names are already gone and may by now
+     * belong to a newer daemon) */
     close(server_fd);
-    unlink(sock_path);
-    remove_pid_file(pid_file);
+    if (!retired) {
+        unlink(sock_path);
+        remove_pid_file(pid_file);
+    }
 
     if (cfg->foreground || cfg->verbose) {
         fprintf(stderr, "[vmd] Shutdown complete\n");
